@@ -8,7 +8,8 @@ services directly (Lemmas/Proxy.lean).  The model is the code after the fix
 commits 723e399 … aebf686 (unknown interface / unreachable address / method
 without dot / parameterless GetInterfaceDescription are answered and the loop goes
 on, GetInfo goes to the configured resolver, bytes buffered behind an upgrading
-request go to the service, `--connect` works without a child, data that arrived
+request go to the service and what the service sent behind its reply goes to the client,
+`--connect` works without a child, data that arrived
 before a hang-up is delivered, the end of the client's stream is passed on to the service
 as a half-close: aebf686).
 
@@ -339,28 +340,35 @@ example :
 
 /-! ### upgraded sessions and direct mode: byte pumps -/
 
-/-- **C18 upgraded hand-over (partial)**: whatever the client had already sent behind the
-    upgrading request (`buffered`) and whatever it sends later, under any chunking, the
-    service receives exactly these bytes in order (fix 84fe826; before it the buffered bytes
-    were written back to the client); and the client receives exactly the service's output —
-    provided the service had sent nothing yet when the bridge read its reply to the upgrading
-    call (`readAhead = 0`). -/
-theorem C18_upgraded_pump_partial (svcOut : Bytes → Bytes) (buffered : Bytes) (later : List Bytes) (readAhead : Nat) :
-    (upgradedPump svcOut buffered later readAhead).toService = buffered ++ later.flatten ∧
-    (readAhead = 0 → (upgradedPump svcOut buffered later readAhead).toClient = svcOut (buffered ++ later.flatten)) := by
-  refine ⟨by simp [upgradedPump, copyLoop_eq_flatten], ?_⟩
-  intro h
-  subst h
+/-- **C18 upgraded hand-over**: whatever the client had already sent behind the upgrading
+    request (`buffered`) and whatever it sends later, under any chunking, the service
+    receives exactly these bytes in order (84fe826) and the client receives exactly the
+    service's output, also what the service sent right behind its reply to the upgrading
+    call (847b000). -/
+theorem C18_upgraded_pump (svcOut : Bytes → Bytes) (buffered : Bytes) (later : List Bytes) :
+    (upgradedPump svcOut buffered later).toService = buffered ++ later.flatten ∧
+    (upgradedPump svcOut buffered later).toClient = svcOut (buffered ++ later.flatten) := by
   simp [upgradedPump, copyLoop_eq_flatten]
 
-/-- **dropped hypothesis: the service has sent nothing behind its reply yet** — a service that
-    speaks first (a greeting written together with the reply to the upgrading call) loses what
-    the bridge read ahead into the reply's `BufReader`: up to 8192 minus the reply's length -/
-theorem C18_upgrade_read_ahead_counterexample :
+/-- the hand-over as it was before 847b000: `readAhead` of the service's bytes had been read,
+    together with the reply to the upgrading call, into the `BufReader` used for that reply and
+    were dropped with it -/
+def upgradedPumpBefore847b000 (svcOut : Bytes → Bytes) (buffered : Bytes) (later : List Bytes) (readAhead : Nat) :
+    Pumped :=
+  { toService := buffered ++ copyLoop later, toClient := (svcOut (buffered ++ copyLoop later)).drop readAhead }
+
+/-- that `BufReader` holds 8 KiB: of a service that writes `early` bytes in one go with its reply
+    (`replyLen` bytes incl. the NUL), this many were read ahead -/
+def readAheadOf (replyLen early : Nat) : Nat := min early (8192 - replyLen)
+
+/-- **history (C18-F11, fixed by 847b000)**: a service that speaks first — a greeting written
+    together with the reply to the upgrading call — lost what the old bridge had read ahead, up to
+    8192 minus the reply's length; the current hand-over delivers it -/
+theorem C18_history_read_ahead_before_847b000 :
     let svcOut : Bytes → Bytes := fun b => [103, 103, 103] ++ b.map (· + 1)
-    upgradedPump svcOut [] [[97]] (readAheadOf 27 3) = { toService := [97], toClient := [98] } ∧
+    upgradedPumpBefore847b000 svcOut [] [[97]] (readAheadOf 27 3) = { toService := [97], toClient := [98] } ∧
     (readAheadOf 27 20000 = 8165) ∧
-    (upgradedPump svcOut [] [[97]] 0).toClient = [103, 103, 103, 98] := by
+    (upgradedPump svcOut [] [[97]]).toClient = [103, 103, 103, 98] := by
   decide
 
 /-- **C18 upgrade hands over every byte**: for every read schedule of the client's stream,
@@ -372,13 +380,13 @@ theorem C18_upgrade_hands_over_all (w : World) (dec : Bytes → Frame) (reads : 
     (hu : (bridge w dec reads).status = .upgraded a i) :
     let b := bridge w dec reads
     let after := afterFrames (run w {} (clientFrames dec reads.flatten)).consumed reads.flatten
-    (upgradedPump svcOut b.buffered b.rest 0).toService = after ∧
-    (upgradedPump svcOut b.buffered b.rest 0).toClient = svcOut after := by
+    (upgradedPump svcOut b.buffered b.rest).toService = after ∧
+    (upgradedPump svcOut b.buffered b.rest).toClient = svcOut after := by
   have s := bridge_spec w dec reads hne
   obtain ⟨_, _, st, u⟩ := s
   rw [st] at hu
   have := u a i hu
-  simp only [upgradedPump, copyLoop_eq_flatten, List.drop_zero]
+  simp only [upgradedPump, copyLoop_eq_flatten]
   rw [this]
   exact ⟨rfl, rfl⟩
 
